@@ -248,3 +248,81 @@ def main(argv: List[str]) -> int:
 
 if __name__ == "__main__":
     sys.exit(main(sys.argv[1:]))
+
+
+# ------------------------------------------------------------------------------------------- sensitivity sample for the thorough tier
+def anchor_functions(prop: str, repo: str) -> List[Tuple[str, str]]:
+    """(relpath, qualified function name) of the functions that overlap the line ranges named in the property's anchors."""
+    import re
+    props = {}
+    with open("/verif/properties.jsonl") as fh:
+        for line in fh:
+            d = json.loads(line)
+            props[d["id"]] = d
+    out = []
+    for mech in props[prop].get("anchors", {}).get("mechanism", []):
+        for m in re.finditer(r"(py7zr/[a-z_0-9]+\.py):([0-9,\- ]+)", mech.get("where", "")):
+            rel, spans = m.group(1), m.group(2)
+            path = os.path.join(repo, rel)
+            if not os.path.exists(path):
+                continue
+            tree = ast.parse(open(path, encoding="utf-8").read())
+            ranges = []
+            for part in spans.split(","):
+                part = part.strip()
+                if not part:
+                    continue
+                a, _, b = part.partition("-")
+                try:
+                    ranges.append((int(a), int(b or a)))
+                except ValueError:
+                    pass
+            for node in ast.walk(tree):
+                if isinstance(node, ast.ClassDef):
+                    for fn in node.body:
+                        if isinstance(fn, ast.FunctionDef) and any(fn.lineno <= hi and fn.end_lineno >= lo for lo, hi in ranges):
+                            out.append((rel, f"{node.name}.{fn.name}"))
+            for fn in tree.body:
+                if isinstance(fn, ast.FunctionDef) and any(fn.lineno <= hi and fn.end_lineno >= lo for lo, hi in ranges):
+                    out.append((rel, fn.name))
+    return sorted(set(out))
+
+
+def _one_job(args):
+    m, repo, prop = args
+    import importlib
+    from .report import Ctx, load_known
+    from .model import AnalysisError
+    src = open(os.path.join(repo, m["file"]), encoding="utf-8").read().encode("utf-8")
+    mutated = (src[:m["span"][0]] + m["newfull"].encode("utf-8") + src[m["span"][1]:]).decode("utf-8")
+    known = {(k["property"], k["key"]) for k in load_known().get("known", [])}
+    try:
+        ctx = Ctx(prop, "quick", repo, {m["file"]: mutated}, quiet=True)
+        importlib.import_module(f"sa.rules.{prop.lower()}").run(ctx)
+        return "noticed" if any((prop, f.key) not in known for f in ctx.findings) else "silent"
+    except AnalysisError:
+        return "analysis-error"
+    except Exception:  # noqa
+        return "analysis-error"
+
+
+def sample_for_property(prop: str, repo: str, n: int = 64, jobs: int = 16) -> Dict:
+    """how many of a deterministic sample of syntactic mutants of the property's anchor functions does the property's own check notice?
+    (informational: a silent mutant may be equivalent, killed by the test suite, or outside the property)"""
+    import random
+    funcs = anchor_functions(prop, repo)
+    by_file: Dict[str, set] = {}
+    for rel, qn in funcs:
+        by_file.setdefault(rel, set()).add(qn)
+    muts = []
+    for rel, names in sorted(by_file.items()):
+        src = open(os.path.join(repo, rel), encoding="utf-8").read()
+        muts += [m for m in mutants_of(rel, src) if m["func"] in names]
+    random.Random(prop).shuffle(muts)
+    muts = muts[:n]
+    if not muts:
+        return {"anchor_functions": len(funcs), "mutants": 0}
+    with ProcessPoolExecutor(max_workers=min(jobs, len(muts))) as ex:
+        res = list(ex.map(_one_job, [(m, repo, prop) for m in muts]))
+    return {"anchor_functions": len(funcs), "mutants": len(muts), "noticed": res.count("noticed"), "analysis_error": res.count("analysis-error"),
+            "silent": res.count("silent")}
